@@ -158,12 +158,18 @@ def quiet_twisted_log():
         pass
 
 
+class HarnessReach(Exception):
+    """The harness could not reach something it looks at inside the library (a private name moved).  Never a
+    finding: the history is skipped with a note."""
+
+
 class Net:
     """A real Bus with scripted clients; records one Step per event."""
 
     def __init__(self):
-        import txdbus.protocol
-        txdbus.protocol._is_linux = False
+        from harness import net as _sharednet
+        _sharednet.no_peer_credentials()       # private switch when it exists + a fake `socket` on the transports
+        self.FakeSocket = _sharednet.FakeSocket
         quiet_twisted_log()
         from txdbus import bus, message
         from twisted.internet.testing import StringTransport
@@ -185,6 +191,16 @@ class Net:
         self.cur = None
         self.aborted = None
         self.unprocessed = None
+        self.harness_error = None      # the harness's own reach into an internal failed (never a finding)
+        self.no_model = None           # why the effects / dispatch observation is unavailable in this tree
+        self.observed = []
+        self._names_table = None
+        try:
+            self.install_observers()
+        except (AttributeError, TypeError) as e:
+            self.no_model = 'observation hooks unavailable (%s: %s)' % (type(e).__name__, e)
+
+    def install_observers(self):
         real_send, real_bcast = self.bus.sendSignal, self.bus.broadcastSignal
 
         def sendSignal(p, member, signature=None, body=None, *a, **kw):
@@ -200,8 +216,13 @@ class Net:
         self.bus.broadcastSignal = broadcastSignal
         # what the object dispatch did with a call to the bus is OBSERVED, not predicted: was a method executed
         # (executeMethod), was a rule registered (router.addMatch, with which constraints)
-        self.observed = []
-        real_exec, real_add = self.bus.executeMethod, self.bus.router.addMatch
+        router = getattr(self.bus, 'router', None)
+        if router is None or not hasattr(router, 'addMatch'):
+            cands = [v for v in vars(self.bus).values() if hasattr(v, 'addMatch') and hasattr(v, 'routeMessage')]
+            if len(cands) != 1:
+                raise AttributeError('the bus\'s message router was not found')
+            router = cands[0]
+        real_exec, real_add = self.bus.executeMethod, router.addMatch
 
         def executeMethod(*a, **kw):
             self.observed.append(('exec',))
@@ -211,7 +232,7 @@ class Net:
             self.observed.append(('addmatch', dict((k, v) for k, v in kw.items() if v)))
             return real_add(callback, **kw)
         self.bus.executeMethod = executeMethod
-        self.bus.router.addMatch = addMatch
+        router.addMatch = addMatch
 
     def index_of(self, p):
         for k, c in enumerate(self.clients):
@@ -219,8 +240,23 @@ class Net:
                 return k
         return 99
 
+    def names_table(self):
+        """The bus's name table (name -> queue of connections): `Bus.busNames`, else the one dict attribute of the bus
+        whose values are lists of connections."""
+        t = getattr(self.bus, 'busNames', None)
+        if isinstance(t, dict):
+            return t
+        protos = tuple(c['p'] for c in self.clients)
+        cands = [v for v in vars(self.bus).values()
+                 if isinstance(v, dict) and all(isinstance(q, list) and all(x in protos for x in q) for q in v.values())
+                 and not any(v is w for w in (getattr(self.bus, 'clients', None),))]
+        cands = [v for v in cands if v or True]
+        if len(cands) == 1:
+            return cands[0]
+        raise HarnessReach('the name table of the bus was not found (Bus.busNames is gone, %d candidate dicts)' % len(cands))
+
     def heads(self):
-        return dict((n, self.index_of(q[0])) for n, q in self.bus.busNames.items() if q)
+        return dict((n, self.index_of(q[0])) for n, q in self.names_table().items() if q)
 
     # -- events ---------------------------------------------------------------
     def connect(self):
@@ -229,6 +265,7 @@ class Net:
 
         class T(self.StringTransport):
             lose_calls = 0
+            socket = self.FakeSocket()
 
             def write(self, data):
                 net.wlog.append((idx, bytes(data)))
@@ -252,14 +289,14 @@ class Net:
         real = p.rawDBusMessageReceived
 
         def wrapped(raw):
-            self.begin('msg', idx, raw)
+            self.guarded(self.begin, 'msg', idx, raw)
             try:
                 real(raw)
             except Exception as e:
                 self.cur.exc = '%s: %s' % (type(e).__name__, str(e)[:200])
+                self.guarded(self.end)
                 raise
-            finally:
-                self.end()
+            self.guarded(self.end)
         p.rawDBusMessageReceived = wrapped
         st = Step()
         st.kind, st.i, st.sent, st.deliv, st.named, st.lose = 'connect', idx, None, [], None, False
@@ -267,6 +304,15 @@ class Net:
         st.names_before = []
         self.steps.append(st)
         return idx
+
+    def guarded(self, fn, *a):
+        """Run the harness's own bookkeeping; its failures (a moved internal) are the harness's, not the bus's."""
+        try:
+            return fn(*a)
+        except HarnessReach:
+            raise
+        except (AttributeError, TypeError, KeyError, IndexError) as e:
+            raise HarnessReach('%s in the harness\'s bookkeeping: %s' % (type(e).__name__, e))
 
     def begin(self, kind, i, raw):
         st = Step()
@@ -317,6 +363,10 @@ class Net:
         n0 = len(self.steps)
         try:
             c['p'].dataReceived(b''.join(raws))
+        except HarnessReach as e:
+            self.harness_error = str(e)
+            self.aborted = 'harness'
+            return
         except Exception as e:
             self.aborted = '%s: %s' % (type(e).__name__, str(e)[:200])
             return
@@ -336,6 +386,9 @@ class Net:
             return
         try:
             c['p'].dataReceived(data)
+        except HarnessReach as e:
+            self.harness_error = str(e)
+            self.aborted = 'harness'
         except Exception as e:
             self.aborted = '%s: %s' % (type(e).__name__, str(e)[:200])
 
@@ -345,14 +398,17 @@ class Net:
         c = self.clients[i]
         if not c['alive'] or self.aborted:
             return
-        self.begin('disc', i, None)
         try:
-            c['p'].connectionLost(Failure(ConnectionDone()))
-        except Exception as e:
-            self.cur.exc = '%s: %s' % (type(e).__name__, str(e)[:200])
-            self.aborted = self.cur.exc
-        finally:
-            self.end()
+            self.guarded(self.begin, 'disc', i, None)
+            try:
+                c['p'].connectionLost(Failure(ConnectionDone()))
+            except Exception as e:
+                self.cur.exc = '%s: %s' % (type(e).__name__, str(e)[:200])
+                self.aborted = self.cur.exc
+            self.guarded(self.end)
+        except HarnessReach as e:
+            self.harness_error = str(e)
+            self.aborted = 'harness'
         c['alive'] = False
 
 
@@ -511,22 +567,46 @@ def build(message, B, md):
     else:
         m = message.SignalMessage(md.get('path') or '/x', md.get('member') or 'Foo', md.get('iface') or IFACES[0],
                                   signature=sig, body=body)
-    m.destination = md.get('dest')
-    m.sender = md.get('forged')
-    m.serial = md['serial']
     fl = md.get('flags', 0)
-    m.expectReply = not (fl & 1)
-    m.autoStart = not (fl & 2)
-    m._marshal(False)
-    if not md.get('be'):
-        return m.rawMessage
-    # the same message in big-endian byte order (txdbus itself only ever writes little-endian bodies)
-    from txdbus import marshal
-    bin_body = b''.join(marshal.marshal(sig, body, lendian=False)[1]) if sig else b''
-    hdr = b''.join(marshal.marshal(message._headerFormat,
-                                   [ord('B'), m._messageType, fl & 3, 1, len(bin_body), m.serial, m.headers],
-                                   lendian=False)[1])
-    return hdr + marshal.pad['header'](len(hdr)) + bin_body
+    if md.get('be'):
+        # the same message in big-endian byte order (txdbus itself only ever writes little-endian bodies): the
+        # harness's own serializer, the constructor above has validated the parts
+        return build_foreign(B, dict(md, foreign={'flags': fl}))
+    fwd = remarshal_entry(message)
+    if fwd is not None:
+        # as a txdbus peer writes it: the library's own marshaller (located by behaviour, `_marshal` unless renamed)
+        try:
+            m.destination = md.get('dest')
+            m.sender = md.get('forged')
+            m.serial = md['serial']
+            m.expectReply = not (fl & 1)
+            m.autoStart = not (fl & 2)
+            getattr(m, fwd[0])(**{fwd[1]: False})
+            return m.rawMessage
+        except (AttributeError, TypeError):
+            _REMARSHAL[id(message)] = None
+    return build_foreign(B, dict(md, foreign={'flags': fl}))
+
+
+_REMARSHAL = {}
+REACH_NOTES = []
+
+
+def remarshal_entry(message):
+    """(method name, new-serial parameter, raw-body parameter) of DBusMessage's marshalling entry point, located once per
+    module by its signature (harness/c03_probe.forward_call); None when it cannot be found: the harness then writes
+    every message with its own serializer."""
+    key = id(message)
+    if key not in _REMARSHAL:
+        try:
+            from harness import c03_probe
+            _REMARSHAL[key] = c03_probe.forward_call(message)
+        except Exception:
+            _REMARSHAL[key] = None
+        if _REMARSHAL[key] is None:
+            REACH_NOTES.append('the marshalling entry point of DBusMessage was not found: all client messages are written '
+                               'by the harness\'s own serializer')
+    return _REMARSHAL[key]
 
 
 def op_to_msgs(op, names):
@@ -1000,8 +1080,29 @@ def net_name_after(net, st):
 
 
 # --------------------------------------------------------------------------- judging one history
+SKIPPED = {'n': 0, 'judged': 0, 'no_model': 0, 'why': []}
+
+
 def judge(ctx, stream, ops, model=True, collect=None):
-    net, lines = run_history(ops)
+    try:
+        net, lines = run_history(ops)
+        reach = net.harness_error
+    except (HarnessReach, AttributeError, TypeError) as e:
+        # raised by the harness's own code around the library (the library's exceptions are caught where it is
+        # called and judged there): something the harness looks at has moved
+        net, lines, reach = None, None, '%s: %s' % (type(e).__name__, e)
+    if reach:
+        SKIPPED['n'] += 1
+        if reach not in SKIPPED['why'] and len(SKIPPED['why']) < 5:
+            SKIPPED['why'].append(reach)
+        ctx.stat('history-skipped: the harness could not reach an internal')
+        return []
+    SKIPPED['judged'] += 1
+    if net.no_model:
+        SKIPPED['no_model'] += 1
+        if net.no_model not in SKIPPED['why'] and len(SKIPPED['why']) < 5:
+            SKIPPED['why'].append(net.no_model)
+        collect = None         # the oracle still judges the history; the model cannot be fed without the observations
     ctx.impl_trace()
     impl = impl_lines(net)
     deliveries = sum(len(st.deliv) for st in net.steps)
@@ -1509,8 +1610,6 @@ def run_fd_case(name):
             d = names[int(dest[1:])] if dest.startswith('@') else dest
             m = net.message.MethodCallMessage('/x', 'TakeThis', interface='org.ex.I', destination=d,
                                               signature='h', body=[fd], oobFDs=[])
-            m.serial = serial
-            m._marshal(False, oobFDs=[fd])
             serial += 1
             raws.append(m.rawMessage)
             expect.append((fd, int(dest[1:]) if dest.startswith('@') else owner[dest], m.serial))
@@ -1537,7 +1636,12 @@ def run_fd_case(name):
 
 
 def judge_fd(ctx, name):
-    obs = run_fd_case(name)
+    try:
+        obs = run_fd_case(name)
+    except (HarnessReach, AttributeError, TypeError) as e:
+        ctx.note('advisory: descriptor case %s skipped, the harness could not reach an internal (%s: %s)'
+                 % (name, type(e).__name__, e))
+        return
     ctx.case('unicast-with-descriptor', sample={'fdcase': name}, nontrivial=True)
     ctx.impl_trace()
     ctx.stat('descriptor-case')
@@ -1577,6 +1681,8 @@ def shrink(ops, key, budget=150):
 def run(ctx):
     collected = []
     seen_keys = {}
+    SKIPPED.update(n=0, judged=0, no_model=0, why=[])
+    del REACH_NOTES[:]
 
     def go(stream, ops):
         vs = judge(ctx, stream, ops, collect=collected)
@@ -1631,6 +1737,13 @@ def run(ctx):
             break
 
     compare(ctx, collected)
+    for note in REACH_NOTES[:3]:
+        ctx.note('advisory: ' + note)
+    if SKIPPED['n'] or SKIPPED['no_model']:
+        ctx.note('advisory: %d histories skipped and %d judged by the oracle only because the harness could not reach an '
+                 'internal of this tree (not a finding): %s' % (SKIPPED['n'], SKIPPED['no_model'], '; '.join(SKIPPED['why'])))
+    if SKIPPED['judged'] == 0:
+        raise RuntimeError('no history could be run in this tree: %s' % '; '.join(SKIPPED['why']))
 
     # descriptor-carrying messages: judged by the oracle only (known finding bus-drops-descriptors; not modelled)
     for name in sorted(FD_CASES):
